@@ -59,6 +59,7 @@ def angles_full():
         floats(0.0, 2 * PI),
         floats(1e-3, PI - 1e-3),
         log_uniform(1e-9, 1e-4),
+        log_uniform(1e-4, 0.3),          # small but not tiny: the decades where series / shortcut thresholds live
         st.sampled_from([0.0, 1e-6, math.nextafter(1e-6, 0), math.nextafter(1e-6, 1), 1e-7, 2e-6, 5e-7]),
         st.integers(1, 12).map(lambda k: PI - 10.0 ** (-k)),
         st.sampled_from([PI, math.nextafter(PI, 0), math.nextafter(PI, 4)]),
@@ -73,6 +74,7 @@ def angles_lt_pi():
         floats(0.0, PI).filter(lambda a: a < PI),
         floats(1e-3, PI - 1e-3),
         log_uniform(1e-9, 1e-4),
+        log_uniform(1e-4, 0.3),
         st.sampled_from([0.0, 1e-6, math.nextafter(1e-6, 0), math.nextafter(1e-6, 1), 1e-7, 2e-6, 5e-7]),
         st.integers(1, 12).map(lambda k: PI - 10.0 ** (-k)),
         st.sampled_from([math.nextafter(PI, 0), PI / 2, PI / 3, 1.0, 3.0]),
@@ -85,6 +87,7 @@ def angles_below(maxang):
         floats(0.0, maxang),
         floats(1e-3, maxang),
         log_uniform(1e-9, 1e-4),
+        log_uniform(1e-4, 0.3).map(lambda a: min(a, maxang)),
         st.sampled_from([0.0, 1e-7, 1e-6, math.nextafter(1e-6, 0), math.nextafter(1e-6, 1), 2e-6, maxang,
                          min(maxang, PI / 2), min(maxang, 1.0)]),
     )
